@@ -90,6 +90,55 @@ def is_ser(v):
     return v["class"] == "SER"
 
 
+def chunk_gen_logs(out, wd, tier):
+    """S2 for the chunk layer: TLC enumerates serializer call sequences from Gen_Chunk.tla at the real constants, one
+    representative behaviour per window of step classes (VIEW); the harness replays each printed behaviour through the
+    real serializer and deserializer.  While generating, TLC also checks Delivered (reference receiver, real constants)."""
+    consts = dict(REAL, MaxSteps=3, K=1, Fine=False) if tier == "quick" else dict(REAL, MaxSteps=4, K=1, Fine=True)
+    cfg = os.path.join(wd, "Gen_Chunk_%s.cfg" % tier)
+    vlib.write_cfg(cfg, constants=consts, invariants=["Delivered", "Emit"], view="GenView")
+    r = vlib.tlc("Gen_Chunk.tla", cfg, wd, workers=1 if tier == "quick" else 6, timeout=1500, xss="64m", xmx="8g")
+    if r.get("timeout") or not r["completed"] or r["violated"]:
+        log(r["out"][-2000:])
+        raise ToolError("S2 generation Gen_Chunk failed (%s)" % (r["violated"] or "incomplete"))
+    paths = []
+    for line in r["out"].splitlines():
+        if line.startswith('"@@PATH|'):
+            paths.append(json.loads(json.loads(line)[len("@@PATH|"):]))
+    # keep maximal behaviours only (a printed prefix of another printed behaviour adds nothing)
+    keys = [tuple(json.dumps(st, sort_keys=True) for st in p) for p in paths]
+    prefixes = set()
+    for k in keys:
+        for n in range(1, len(k)):
+            prefixes.add(k[:n])
+    keep = [p for p, k in zip(paths, keys) if k not in prefixes]
+    pfile = os.path.join(wd, "Gen_Chunk.paths.ndjson")
+    with open(pfile, "w") as f:
+        for p in keep:
+            f.write(json.dumps(p) + "\n")
+    vlib.build_harness()
+    shards = 8
+
+    def gen(i):
+        path = os.path.join(wd, "gen_%d.ndjson" % i)
+        q = vlib.harness(["chunk", "gen", i, shards, pfile, "--seed", vlib.seed(), "--out", path])
+        return path, vlib.last_json(q.stdout)
+    logs = vlib.parallel([(lambda i=i: gen(i)) for i in range(shards)], nproc=8)
+    fmts = {}
+    for p in keep:
+        for st in p:
+            if st["k"] == "data":
+                fmts[st["fmt"]] = fmts.get(st["fmt"], 0) + 1
+    out.cov["s2"] = {"model": "Gen_Chunk (real constants: words mod 2^32, saturation at 0xFFFFFF)", "constants": {k: str(v) for k, v in consts.items()},
+                     "model_states_generated": r["generated"], "class_windows": r["distinct"], "behaviours_replayed": len(keep),
+                     "steps_by_header_format": {str(k): v for k, v in sorted(fmts.items())},
+                     "design_invariant": "Delivered held on every representative",
+                     "runs_on_real_codec": sum(i.get("runs", 0) for _, i in logs)}
+    if len(fmts) < 4:
+        raise ToolError("S2 generation Gen_Chunk: not every header format was generated: %s" % fmts)
+    return logs
+
+
 def check_C01(tier):
     out = Outcome("C01", tier, "model_checking")
     wd = vlib.workdir("C01")
@@ -98,7 +147,7 @@ def check_C01(tier):
     if tier == "thorough":
         r = vlib.model_check("MC_Chunk.tla", "MC_Chunk_quick.cfg", wd)
         out.add_s1(r, "MC_Chunk_quick (any legal sender)")
-    logs = chunk_logs(wd, "ser_fixed", tier) + chunk_logs(wd, "big", tier)
+    logs = chunk_logs(wd, "ser_fixed", tier) + chunk_logs(wd, "big", tier) + chunk_gen_logs(out, wd, tier)
     # the pure self-consistency oracle: no parsing; library output vs. the intended messages
     chunk_validate(out, logs, wd, False, False,
                    lambda v: is_des(v) or (is_ser(v) and "empty packet" in v["why"]), "c01")
@@ -118,7 +167,7 @@ def check_C07(tier):
     out.add_s1(r, "MC_Chunk_lib")
     r = vlib.model_check("MC_Wire.tla", "MC_Wire.cfg", wd, workers=4)
     out.add_s1(r, "MC_Wire (ChunkWire reads back field-by-field encodings; every strict prefix is 'need more'; csid minimality)")
-    logs = chunk_logs(wd, "ser_all", tier) + chunk_logs(wd, "ser_fixed", tier, shards=4) + chunk_logs(wd, "big", tier)
+    logs = chunk_logs(wd, "ser_all", tier) + chunk_logs(wd, "ser_fixed", tier, shards=4) + chunk_logs(wd, "big", tier) + chunk_gen_logs(out, wd, tier)
     chunk_validate(out, logs, wd, False, True, is_ser, "c07")
     s5(out, "Trace_Chunk.tla", dict(REAL, AllowDrops=False, CheckWire=True), logs[0][0], "chunk_wire", wd)
     sample_events(out, logs[0][0], ("Ser",))
@@ -135,10 +184,11 @@ def check_C08(tier):
     out.add_s1(r, "MC_Chunk_quick (drops, droppable rule on)")
     r = vlib.model_check("MC_Chunk.tla", "MC_Chunk_nodrop.cfg", wd, expect_violation="DeliveredExact")
     out.cov["negative_control"] = "without the droppable rule TLC finds a counterexample (%d states)" % r["distinct"]
-    logs_all = chunk_logs(wd, "ser_all", tier)
+    glogs = chunk_gen_logs(out, wd, tier)
+    logs_all = chunk_logs(wd, "ser_all", tier) + glogs
     res = chunk_validate(out, logs_all, wd, True, True, is_ser, "c08all")
     out.cov["drop_branch_states"] = sum(x["distinct"] for x in res)
-    logs_fx = chunk_logs(wd, "ser_fixed", tier)
+    logs_fx = chunk_logs(wd, "ser_fixed", tier) + glogs
     chunk_validate(out, logs_fx, wd, False, False, is_des, "c08fx")
     sample_events(out, logs_all[0][0], ("Ser",))
     out.assumptions = CHUNK_ASSUME
